@@ -11,7 +11,7 @@ from mc.forkexec import pristine, run_in_child, warm_scipy
 ID = "C14"
 LEVEL = "model_checking"
 RULE = (
-    "states = histories N_1 .. N_k ; observe M with k <= 2 (quick) / 3 (thorough): M ranges over 12 models (scalar NLP "
+    "states = histories N_1 .. N_k ; observe M with k <= 2 (quick) / 3 (thorough): M ranges over 13 models (views whose generated name and size do not identify their elements - partial matrix rows, stepped and reversed slices - with the variant 'other view of the same name and size'; scalar NLP "
     "with a parameter, LP over a vector, vector QP, quadratic form, bare-parameter gradient p*w, a Variable as the "
     "whole expression, a Parameter as the whole expression, matrix sums, vectorised power / function sums, a "
     "450-term chain, parameterised constraint, norms) and every N_i over an adversarial menu derived from M: the "
@@ -120,7 +120,21 @@ def model_builders():
         e = optyx.core.vectors.norm(w - t, 2) + 0.5 * optyx.core.vectors.norm(w, 1)
         return dict(e=e, cons=[], vars=list(w), P=Problem().minimize(e), roots=[w[0]])
 
+    def m_views(v=None):
+        # views whose generated (name, size) does not identify the elements they select
+        W = MatrixVariable("W", 2, 3, lb=alt(v, "bounds", -5.0, -1.0), ub=5.0)
+        x = VectorVariable("x", 5, lb=-5.0, ub=5.0)
+        row = W[0, 1:] if v == "view" else W[0, :2]
+        st = x[::4] if v == "view" else x[::3]
+        rv = x[:] if v == "view" else x[::-1]
+        k = alt(v, "data", 1.0, 2.0)
+        c5 = np.array([1.0, -2.0, 0.5, 3.0, -1.5])
+        e = ((np.array([5.0, 7.0]) * k) @ row - 1) ** 2 + st.dot(st) + (c5 @ rv - 2) ** 2 + (row ** 2).sum() + optyx.core.vectors.norm(st - k, 2)
+        vs = [W[i, j] for i in range(2) for j in range(3)] + list(x)
+        return dict(e=e, cons=[], vars=vs, P=Problem().minimize(e), roots=[W[0, 1], x[4]], no_hessian=True)
+
     return {
+        "views": m_views,
         "scalar-nlp": m_scalar, "lp": m_lp, "vector-qp": m_qp, "quadratic-form": m_qform,
         "param-gradient": m_param_gradient, "variable-root": m_variable_root, "parameter-root": m_parameter_root,
         "matrix": m_matrix, "vectorised": m_vectorised, "deep-chain": m_deep, "param-constraint": m_param_constraint,
@@ -340,8 +354,9 @@ def execute(model, prefix):
     return observe(bm)
 
 
-def menu():
-    m = [("adv", v, a) for v in VARIANTS for a in ACTIONS]
+def menu(model=None):
+    variants = VARIANTS + (("view",) if model == "views" else ())
+    m = [("adv", v, a) for v in variants for a in ACTIONS]
     m += [("flood", "compiles"), ("flood", "gradients")]
     m += [("reuse", v, a) for v in VARIANTS for a in REUSE_ACTIONS]
     return m
@@ -351,13 +366,13 @@ def shards(tier, seed):
     return [(name, i, 4) for name in model_builders() for i in range(4)]
 
 
-def histories(tier):
-    M = menu()
+def histories(tier, model=None):
+    M = menu(model)
     yield ()
     for a in M:
         yield (a,)
     if tier == "quick":
-        core = [x for x in M if x[0] == "flood" or (x[0] == "adv" and x[1] in ("same", "pvalue", "data", "bounds") and x[2] in ("compile", "roots", "solve-auto", "nested-compile"))
+        core = [x for x in M if x[0] == "flood" or (x[0] == "adv" and x[1] in ("same", "pvalue", "data", "bounds", "view") and x[2] in ("compile", "roots", "solve-auto", "nested-compile"))
                 or x in (("reuse", "data", "gradient"), ("reuse", "pvalue", "degree"))]
         for a in core:
             for b in core:
@@ -366,7 +381,7 @@ def histories(tier):
         for a in M:
             for b in M:
                 yield (a, b)
-        core = [x for x in M if x[0] == "flood" or (x[0] == "adv" and x[1] in ("same", "pvalue", "data") and x[2] in ("compile", "roots", "solve-auto"))
+        core = [x for x in M if x[0] == "flood" or (x[0] == "adv" and x[1] in ("same", "pvalue", "data", "view") and x[2] in ("compile", "roots", "solve-auto"))
                 or (x[0] == "reuse" and x[1] == "data" and x[2] in ("gradient", "degree"))]
         for t in itertools.product(core, repeat=3):
             yield t
@@ -404,7 +419,7 @@ def explore(item, tier, seed):
     raised = [k for k, v in baseline.items() if isinstance(v, tuple) and v and v[0] == "raised"]
     if raised and i == 0:
         rep.extra["baseline_observations_that_raise:" + model] = raised
-    for k, prefix in enumerate(histories(tier)):
+    for k, prefix in enumerate(histories(tier, model)):
         if k % n != i:
             continue
         if not pristine():
